@@ -48,13 +48,6 @@ Theorem C02u_skip_over : forall E n r s,
 Proof. exact UReaderProofs.skip_over. Qed.
 Print Assumptions C02u_skip_over.
 
-Theorem C09u_after_overskip : forall E s,
-  ws_strict (ur_src s) = true -> 64 * N.of_nat (length (ws_words (ur_src s))) <= ur_index s ->
-  (forall n, 1 <= n -> n <= 64 -> ur_read_bits E n s = Err) /\
-  (forall n, 1 <= n -> n <= 32 -> ur_peek E n s = Err) /\
-  ur_read_unary E s = Err.
-Proof. exact UReaderProofs.after_overskip. Qed.
-Print Assumptions C09u_after_overskip.
 
 Theorem C02u_read_unary_sim : forall E r s,
   urel E r s -> 64 * N.of_nat (length (ws_words (ur_src s))) < 2 ^ 63 ->
@@ -87,29 +80,6 @@ Theorem C02u_run_sim_bounded : forall E A (p : rprog A) r s a r',
 Proof. exact UReaderProofs.run_sim_bounded. Qed.
 Print Assumptions C02u_run_sim_bounded.
 
-Theorem C07u_bit_pos : forall E r s, urel E r s -> sr_pos r = ur_index s.
-Proof. exact UReaderProofs.bit_pos_ok. Qed.
-Print Assumptions C07u_bit_pos.
 
-Theorem C07u_set_bit_pos : forall E p s,
-  UInv s -> p < 2 ^ 63 ->
-  let s' := {| ur_src := ur_src s; ur_index := p |} in
-  s_skip false p (sreader_of (src_bits E 64 (ur_src s))) = Ok (uabs E s' 0) /\
-  uabs E s' 0 = {| sr_rest := skipn (N.to_nat p) (src_bits E 64 (ur_src s)); sr_pos := p; sr_peeked := 0 |} /\
-  urel E (uabs E s' 0) s'.
-Proof. exact UReaderProofs.set_bit_pos_ok. Qed.
-Print Assumptions C07u_set_bit_pos.
 
-Theorem C09u_strict_error : forall E n s,
-  ws_strict (ur_src s) = true -> 0 < n -> n <= 64 ->
-  64 * N.of_nat (length (ws_words (ur_src s))) < ur_index s + n ->
-  ur_read_bits E n s = Err.
-Proof. exact UReaderProofs.strict_error. Qed.
-Print Assumptions C09u_strict_error.
 
-Theorem C09u_zero_extended_no_error : forall E s,
-  ws_strict (ur_src s) = false ->
-  (forall n, ur_read_bits E n s <> Err) /\ (forall n, ur_peek E n s <> Err) /\
-  (forall n, ur_skip n s <> Err) /\ ur_read_unary E s <> Err.
-Proof. exact UReaderProofs.zero_extended_no_error. Qed.
-Print Assumptions C09u_zero_extended_no_error.
